@@ -696,7 +696,7 @@ func c03Truth(r *Run, npkg, dpkg *packages.Package) {
 						found = true
 					}
 				}
-			} else if fd := declOf[cal]; fd != nil && fd.Recv == nil && d < 2 {
+			} else if fd := declOf[cal]; fd != nil && fd.Body != nil && d < 2 {
 				if reachesAsBool(fd.Body, d+1) {
 					found = true
 				}
@@ -717,11 +717,24 @@ func c03Truth(r *Run, npkg, dpkg *packages.Package) {
 				continue
 			}
 			evaluates := false
+			var helpers []*ast.FuncDecl // helpers that receive the condition field and evaluate it
 			ast.Inspect(fd.Body, func(n ast.Node) bool {
 				if call, ok := n.(*ast.CallExpr); ok {
 					if se, ok := ast.Unparen(call.Fun).(*ast.SelectorExpr); ok && se.Sel.Name == "GetValue" {
 						if in, ok := ast.Unparen(se.X).(*ast.SelectorExpr); ok && in.Sel.Name == c.field {
 							evaluates = true
+						}
+					}
+					if cal, ok := calleeOf(info, call).(*types.Func); ok {
+						if hd := declOf[cal]; hd != nil && hd != fd && hd.Body != nil {
+							for i, a := range call.Args {
+								if in, ok := ast.Unparen(a).(*ast.SelectorExpr); ok && in.Sel.Name == c.field {
+									if po := paramObjAt(info, hd, i); po != nil && callsGetValueOn(info, hd.Body, po) {
+										evaluates = true
+										helpers = append(helpers, hd)
+									}
+								}
+							}
 						}
 					}
 				}
@@ -735,7 +748,7 @@ func c03Truth(r *Run, npkg, dpkg *packages.Package) {
 			callsAsBool := reachesAsBool(fd.Body, 0)
 			var payloadPos token.Pos
 			var payloadWhat string
-			ast.Inspect(fd.Body, func(n ast.Node) bool {
+			scan := func(n ast.Node) bool {
 				switch x := n.(type) {
 				case *ast.BinaryExpr:
 					// comparison of a scalar payload (.Value / len(.Value) / len(.List)) with a constant
@@ -760,7 +773,11 @@ func c03Truth(r *Run, npkg, dpkg *packages.Package) {
 					}
 				}
 				return true
-			})
+			}
+			ast.Inspect(fd.Body, scan)
+			for _, hd := range helpers {
+				ast.Inspect(hd.Body, scan)
+			}
 			switch {
 			case payloadPos != token.NoPos:
 				r.bad(key, payloadPos, fmt.Sprintf("%s context computes truthiness itself (%s) instead of asking data.AsBool: the same value can be true here and false in another context", c.what, payloadWhat))
@@ -774,4 +791,38 @@ func c03Truth(r *Run, npkg, dpkg *packages.Package) {
 			r.fail("no method of node.%s evaluates its %s field: boolean context anchor moved", c.typ, c.field)
 		}
 	}
+}
+
+// paramObjAt returns the object of the i-th parameter of fd (nil when it has none).
+func paramObjAt(info *types.Info, fd *ast.FuncDecl, i int) types.Object {
+	k := 0
+	for _, f := range fd.Type.Params.List {
+		if len(f.Names) == 0 {
+			k++
+			continue
+		}
+		for _, nm := range f.Names {
+			if k == i {
+				return info.Defs[nm]
+			}
+			k++
+		}
+	}
+	return nil
+}
+
+// callsGetValueOn reports whether body calls GetValue on the given variable.
+func callsGetValueOn(info *types.Info, body ast.Node, o types.Object) bool {
+	found := false
+	ast.Inspect(body, func(n ast.Node) bool {
+		if call, ok := n.(*ast.CallExpr); ok {
+			if se, ok := ast.Unparen(call.Fun).(*ast.SelectorExpr); ok && se.Sel.Name == "GetValue" {
+				if id, ok := ast.Unparen(se.X).(*ast.Ident); ok && info.Uses[id] == o {
+					found = true
+				}
+			}
+		}
+		return !found
+	})
+	return found
 }
